@@ -37,6 +37,15 @@ let show_header h =
 let field_of_int = function
   | 0 -> FVersionId | 1 -> FKeyUsage | 2 -> FAlgorithm | 3 -> FModeOfUse | 4 -> FVersionNum | _ -> FExportability
 
+(* harness-level op list: model ops, plus K=<kbpk> (attribute assignment kb.kbpk = ...,
+   which only replaces the kbpk component of the state) *)
+type hop = MOp of op | SetKbpk of bytes
+
+let parse_hop_with parse_op tok =
+  if String.length tok >= 2 && tok.[0] = 'K' && tok.[1] = '=' then
+    SetKbpk (lst (String.sub tok 2 (String.length tok - 2)))
+  else MOp (parse_op tok)
+
 let parse_op tok =
   let tag = tok.[0] in
   let body = if String.length tok > 2 then String.sub tok 2 (String.length tok - 2) else "" in
@@ -105,8 +114,13 @@ let handle toks =
   | ["unwrap_clear"; k; s] -> res show (x_unwrap_clear (lst k) (lst s))
   | ["wrap_str"; k; h; key; m; t] -> res show (x_wrap_str (lst k) (lst h) (lst key) (optz m) (lst t))
   | "run" :: k :: ops ->
-      let (st, outs) = x_run (x_mkState (lst k) x_default_header) (List.map parse_op ops) in
-      "OK " ^ show_header st.st_header ^ " " ^ String.concat " " (List.map show_out outs)
+      let hops = List.map (parse_hop_with parse_op) ops in
+      let (st, outs) = List.fold_left (fun (st, outs) h ->
+          match h with
+          | SetKbpk kb -> (x_mkState kb st.st_header, OutNone :: outs)
+          | MOp o -> let (st', out) = x_step st o in (st', out :: outs))
+        (x_mkState (lst k) x_default_header, []) hops in
+      "OK " ^ show_header st.st_header ^ " " ^ String.concat " " (List.map show_out (List.rev outs))
   | ["p_fromhex"; s] -> res show (p_fromhex (lst s))
   | ["p_a2b"; s] -> res show (p_a2b (lst s))
   | ["p_str_of_N"; v] -> "OK " ^ show (p_str_of_N (n_of_int (int_of_string v)))
